@@ -1648,8 +1648,10 @@ def M_default_cycle_broken(S, r):
     if not c:
         return False
     a = r.choice(c)
+    v = valid_lit(S, ["nn", tn(a["name"])], r, 1)
+    v[1].append(["zx", ["null"]])
     a["fields"].append({"name": "zx", "type": tn(a["name"]), "dep": False,
-                        "default": ["lit", ["obj", [["zx", ["null"]]]], r.choice(["literal", "value"])]})
+                        "default": ["lit", v, "literal" if lit_has_enum(v) else r.choice(["literal", "value"])]})
     return True
 
 
@@ -1983,6 +1985,8 @@ class Runner:
             label = info.get("label", "") or ""
             if label.endswith(":benign"):
                 ck.count("benign_mutant_valid" if not mk else "benign_mutant_invalid_by_rules")
+                if mk:
+                    ck.count("benign_invalid:" + label + ":" + ",".join(replay["model_kinds"]))
             if ob["raised"] is not None:
                 sites = sorted(default_sites(D)) or ["nested-input-field"]
                 bogus = {t["name"] for t in D["types"] if t["kind"] == "bogus"}
